@@ -39,7 +39,7 @@ def Ast.render : Ast → String
   | .imported _ => "?imported"
 /-- an expression in head position of a call or a dot -/
 def Ast.renderHead : Ast → String
-  | .var x => x
+  | .var x => if x == "." then "(.)" else x
   | .pkg k => "//" ++ k
   | .dot e k => e.renderHead ++ "." ++ k
   | .app f a => f.renderHead ++ "(" ++ a.render ++ ")"
@@ -67,6 +67,7 @@ def Val.names : Val → List String
   | .cons _ v r => v.names ++ r.names
   | .clo env _ _ => env.names
   | .nat (nm :: _) _ _ => [nm]
+  | .thunk env _ => env.names
   | _ => []
 
 /-- `post$3` ↦ `post`, `expand4` ↦ `expand`: the library member a native derives from -/
@@ -77,7 +78,7 @@ def baseName (s : String) : String :=
 def uniqSorted (l : List String) : List String := dedupAdj (sortStrs l)
 
 def readsOf (l : List Eff) : List String :=
-  uniqSorted (l.filterMap fun e => match e with | .did .readFile p => some p | _ => none)
+  uniqSorted (l.filterMap fun e => match e with | .did .readFile p => some p | .imported p => some p | _ => none)
 
 def isBad (l : List Eff) : Bool :=
   l.any fun e => match e with
@@ -116,7 +117,7 @@ def interestingPaths : List (List String) := [
 def dotNames : List String :=
   ["file", "value", "eval", "evaluator", "safe", "http", "get", "exec", "upper", "os", "f", "g", "a", "std", "lang"]
 
-def files : List String := ["lib.arrai", "canary.txt", "missing.arrai"]
+def files : List String := ["lib.arrai", "lib.arrai", "lib2.arrai", "canary.txt", "missing.arrai"]
 
 def tuple (kvs : List (String × Ast)) : Ast := kvs.foldr (fun kv acc => .tcons kv.1 kv.2 acc) .tnil
 
@@ -148,6 +149,25 @@ def genInnerCfg (vars : List String) : Gen Ast := do
     (if sc.isEmpty then [] else [("scope", tuple sc)])
   pure (tuple kvs)
 
+/-- names bound by `let` are `v<depth>`, macro transform parameters `a<depth>`: a parse-time binding is then
+never re-bound between its `let` and a macro that mentions it, and a let value never mentions a transform's
+parameter — the two situations in which Go (which evaluates a named parse-time binding in the scope of the
+lookup) and the model (which evaluates it in the parse-time scope of the binding) could differ -/
+def isLetName (x : String) : Bool :=
+  match x.toList with
+  | 'v' :: d :: _ => d.isDigit
+  | _ => false
+
+/-- what a macro's transform may mention: its parameter, the enclosing `let` names, `.` (the latest `let`
+value) when there is one, and now and then a name that is NOT visible at parse time -/
+def macroVars (param : String) (vars : List String) : Gen (List String) := do
+  let lets := vars.filter isLetName
+  let dot := if lets.isEmpty then [] else ["."]
+  let others := vars.filter (fun x => !isLetName x)
+  let extra ← if others.isEmpty then pure [] else do
+    if ← chance 1 6 then pure [← pick others] else pure []
+  pure (param :: lets ++ lets ++ dot ++ extra)
+
 partial def genExpr (depth : Nat) (vars : List String) : Gen Ast := do
   if depth == 0 then genAtom vars else
   let d := depth - 1
@@ -160,7 +180,9 @@ partial def genExpr (depth : Nat) (vars : List String) : Gen Ast := do
     let cfg ← genInnerCfg vars
     -- names the inner source may use: f, g when the config's scope binds them
     pure (evaluator cfg (← genExpr d ["f", "g"]))
-  else if r == 10 then pure (.mac (.lam "a" (← genExpr d ["a"])))
+  else if r == 10 || (r == 9 && vars.any isLetName) then
+    let param := s!"a{depth}"
+    pure (.mac (.lam param (← genExpr d (← macroVars param vars))))
   else if r == 11 then
     let x ← pick ["x", "y", "f"]
     pure (.lam x (← genExpr d (x :: vars)))
@@ -174,7 +196,7 @@ partial def genExpr (depth : Nat) (vars : List String) : Gen Ast := do
     else if k == 2 then pure (.app (path ["str", "upper"]) (.str "ab"))
     else pure (.app (← genExpr d vars) (← genAtom vars))
   else if r < 16 then
-    let x ← pick ["x", "y", "f", "g"]
+    let x := s!"v{depth}"
     pure (.letE x (← genExpr d vars) (← genExpr d (x :: vars)))
   else if r == 16 then
     pure (tuple [("f", ← genExpr d vars), ("a", ← genAtom vars)])
@@ -209,6 +231,7 @@ structure Prog where
   src : Ast                          -- the sandboxed source
   lib : Ast                          -- content of lib.arrai
   dv : Ast                           -- dyn: what the caller binds the dynamic variable @{x} to
+  lib2 : Ast                         -- content of lib2.arrai (which lib.arrai may import)
 
 def dynName : String := "@{x}"
 
@@ -224,7 +247,8 @@ def mentionsDyn : Ast → Bool
   | .mac f => mentionsDyn f
   | _ => false
 
-def fsOf (p : Prog) : List (String × File) := [("lib.arrai", .code p.lib), ("canary.txt", .bytes)]
+def fsOf (p : Prog) : List (String × File) :=
+  [("lib.arrai", .code p.lib), ("lib2.arrai", .code p.lib2), ("canary.txt", .bytes)]
 
 /-- the whole program the harness evaluates -/
 def Prog.program (p : Prog) : Ast :=
@@ -248,9 +272,7 @@ def Prog.eval (p : Prog) (spec : Bool) : Res × List String × Bool :=
       | _ => []
     (Impl.evalWithScope W fuel Impl.ctx0 p.program .nil, allowed, true)
 
-/-- `model`: the transliteration of the tree; `spec`: the same evaluator with the sandbox boundary closed to
-dynamic variables too, and `confined=yes` demanded.  Class: `KF-dynvar-leak` exactly when the caller binds
-a dynamic variable that the sandboxed source mentions. -/
+/-- `model`: the transliteration of the tree; `spec`: the same observable with `confined=yes` demanded. -/
 def mkCase (id stratum : String) (p : Prog) : Case × Bool :=
   let (r, allowed, strict) := p.eval false
   let (o, confined) := obs allowed strict r
@@ -258,15 +280,16 @@ def mkCase (id stratum : String) (p : Prog) : Case × Bool :=
   let (rs, allowedS, _) := p.eval true
   let (os, _) := obs allowedS strict rs
   let spec := if rs.1.isSome then os ++ "|confined=yes" else os
-  let cls := if p.mode == "dyn" && mentionsDyn p.src then "KF-dynvar-leak" else "good"
+  let cls := "good"   -- (the dyn stratum was KF-dynvar-leak until the dynamic-scope barrier was merged)
   ({ id := id, cls := cls, kind := "c18", stratum := stratum ++ (if rs.1.isSome then "/ok" else "/fail"),
      model := model, spec := spec,
-     payload := [p.program.render, p.mode, p.cfg.render, "lib.arrai", p.lib.render, "canary.txt", "SECRET"] },
+     payload := [p.program.render, p.mode, p.cfg.render, "lib.arrai", p.lib.render, "lib2.arrai", p.lib2.render,
+       "canary.txt", "SECRET"] },
    isBad r.2 || isBad rs.2)
 
 /-- lib.arrai must not import itself: an import cycle hangs the importer (C16's finding, not ours) -/
 def noSelfImport : Ast → Ast
-  | .imp f => if f == "lib.arrai" then .imp "canary.txt" else .imp f
+  | .imp f => if f == "lib.arrai" then .imp "lib2.arrai" else .imp f
   | .quote a => .quote (noSelfImport a)
   | .lam x b => .lam x (noSelfImport b)
   | .app f a => .app (noSelfImport f) (noSelfImport a)
@@ -276,20 +299,59 @@ def noSelfImport : Ast → Ast
   | .mac f => .mac (noSelfImport f)
   | a => a
 
+/-- lib2.arrai imports no .arrai file (no cycles) -/
+def noArraiImport : Ast → Ast
+  | .imp f => if f == "lib.arrai" || f == "lib2.arrai" then .imp "canary.txt" else .imp f
+  | .quote a => .quote (noArraiImport a)
+  | .lam x b => .lam x (noArraiImport b)
+  | .app f a => .app (noArraiImport f) (noArraiImport a)
+  | .letE x v b => .letE x (noArraiImport v) (noArraiImport b)
+  | .tcons k v r => .tcons k (noArraiImport v) (noArraiImport r)
+  | .dot e k => .dot (noArraiImport e) k
+  | .mac f => .mac (noArraiImport f)
+  | a => a
+
 def genLib : Gen Ast := do
-  let r ← rand 6
+  let r ← rand 12
   if r == 0 then pure osFile
   else if r == 1 then pure (.lam "u" osFile)
   else if r == 2 then pure (evalValue osFile)
   else if r == 3 then pure (tuple [("f", osFile), ("a", .num 1)])
+  else if r == 6 then pure (tuple [("f", .lam "u" osFile), ("a", path ["eval", "eval"])])
+  else if r == 7 then pure (.lam "u" (.app (path ["os", "exists"]) (.var "u")))
+  else if r == 8 then pure (tuple [("f", .lam "u" (evalEval (.var "u"))), ("a", .pkg "os")])
+  else if r == 4 then pure (.imp "lib2.arrai")
+  else if r == 5 then pure (tuple [("f", .imp "lib2.arrai"), ("a", .imp "canary.txt")])
   else pure (noSelfImport (← genExpr 2 []))
+
+def genLib2 : Gen Ast := do
+  let r ← rand 8
+  if r == 0 then pure osFile
+  else if r == 1 then pure (.lam "u" osFile)
+  else if r == 2 then pure (evalValue osFile)
+  else if r == 3 then pure (path ["str", "upper"])
+  else if r == 4 then pure (tuple [("f", .lam "u" (.var "u")), ("a", .pkg "std")])
+  else if r == 5 then pure (.lam "u" (.lam "v" (path ["eval", "value"])))
+  else pure (noArraiImport (← genExpr 2 []))
 
 def genProg (big : Bool) : Gen Prog := do
   let depth ← pick (if big then [2, 3, 3, 4] else [2, 2, 3])
   let lib ← genLib
+  let lib2 ← genLib2
   let m ← rand 11
   if m < 3 then
-    pure ⟨"direct", .tnil, ← genExpr depth [], lib, .tnil⟩
+    -- the direct entry: half of the sources are built around what an imported file hands back
+    let src ← do
+      if ← chance 1 2 then genExpr depth [] else
+        let k ← rand 6
+        let f ← pick ["lib.arrai", "lib.arrai", "lib2.arrai"]
+        if k == 0 then pure (.imp f)
+        else if k == 1 then pure (.app (.imp f) (.str "canary.txt"))
+        else if k == 2 then pure (.dot (.imp f) (← pick ["f", "a", "file"]))
+        else if k == 3 then pure (.app (.dot (.imp f) "f") (.str "canary.txt"))
+        else if k == 4 then pure (.letE "v9" (.imp f) (← genExpr (depth - 1) ["v9", "v9"]))
+        else pure (.app (.app (.imp f) (.num 0)) (.str "canary.txt"))
+    pure ⟨"direct", .tnil, src, lib, .tnil, lib2⟩
   else if m == 10 then
     -- the caller binds a dynamic variable around the sandbox; the sandboxed source tries to use it
     let (cfg, names) ← genOuterCfg
@@ -298,14 +360,14 @@ def genProg (big : Bool) : Gen Prog := do
     let src ← if k == 0 then pure (.var dynName)
       else if k == 1 then pure (.app (.var dynName) (.str "canary.txt"))
       else genExpr (depth - 1) (dynName :: dynName :: names)
-    pure ⟨"dyn", cfg, src, lib, dv⟩
+    pure ⟨"dyn", cfg, src, lib, dv, lib2⟩
   else
     let (cfg, names) ← genOuterCfg
     if m < 8 then
-      pure ⟨"evaluator", cfg, ← genExpr depth names, lib, .tnil⟩
+      pure ⟨"evaluator", cfg, ← genExpr depth names, lib, .tnil, lib2⟩
     else
       -- the sandbox returns a function; the program calls it at top level
-      pure ⟨"outside", cfg, .lam "u" (← genExpr (depth - 1) ("u" :: names)), lib, .tnil⟩
+      pure ⟨"outside", cfg, .lam "u" (← genExpr (depth - 1) ("u" :: names)), lib, .tnil, lib2⟩
 
 def genCase (seed idx : Nat) (big : Bool) : Case := Id.run do
   -- programs whose outcome the model does not determine (or that would call the network) are re-drawn
@@ -313,12 +375,12 @@ def genCase (seed idx : Nat) (big : Bool) : Case := Id.run do
     let (p, _) := (genProg big).run (seedOf seed (1800000 + idx * 8 + attempt))
     let (c, bad) := mkCase s!"C18-{idx}" p.mode p
     if !bad then return c
-  let (c, _) := mkCase s!"C18-{idx}" "fallback" ⟨"evaluator", .tnil, .num 1, .num 1, .tnil⟩
+  let (c, _) := mkCase s!"C18-{idx}" "fallback" ⟨"evaluator", .tnil, .num 1, .num 1, .tnil, .lam "u" osFile⟩
   return c
 
 /-- witnesses of the repaired defects and the tests of syntax/std_eval_test.go; always run first -/
 def corpus : List Case :=
-  let ev (cfg src : Ast) : Prog := ⟨"evaluator", cfg, src, osFile, .tnil⟩
+  let ev (cfg src : Ast) : Prog := ⟨"evaluator", cfg, src, osFile, .tnil, .lam "u" osFile⟩
   let progs : List Prog := [
     ev .tnil (evalValue osFile),                                   -- //eval.eval("//eval.value(\"//os.file\")")
     ev .tnil (.mac (.lam "a" osFile)),                             -- macro evaluated at parse time
@@ -334,23 +396,48 @@ def corpus : List Case :=
       (.app (path ["str", "lower"]) (.str "CAT")),
     ev (tuple [("scope", tuple [("f", .lam "d" (.var "d"))])]) (.app (.var "f") (.num 1)),
     ev .tnil (.lam "u" (evalValue osFile)),                        -- a closure that tries again when called
-    ⟨"outside", .tnil, .lam "u" (evalValue osFile), osFile, .tnil⟩,       -- … and is called outside the sandbox
-    ⟨"outside", .tnil, .lam "u" (evalEval (.app osFile (.var "u"))), osFile, .tnil⟩,
+    ⟨"outside", .tnil, .lam "u" (evalValue osFile), osFile, .tnil, .lam "u" osFile⟩,       -- … and is called outside the sandbox
+    ⟨"outside", .tnil, .lam "u" (evalEval (.app osFile (.var "u"))), osFile, .tnil, .lam "u" osFile⟩,
     ev .tnil (evalEval (evalValue (.mac (.lam "a" osFile)))),
     ev .tnil (evaluator (tuple [("stdlib", tuple [("os", .pkg "os")])]) osFile),
     ev .tnil (.pkg "eval"),
-    ⟨"direct", .tnil, evalValue osFile, osFile, .tnil⟩,
-    ⟨"direct", .tnil, .mac (.lam "a" osFile), osFile, .tnil⟩,
-    ⟨"direct", .tnil, .imp "lib.arrai", osFile, .tnil⟩,
-    ⟨"direct", .tnil, .imp "lib.arrai", .lam "u" osFile, .tnil⟩,
-    ⟨"direct", .tnil, .app (.imp "lib.arrai") (.num 0), .lam "u" osFile, .tnil⟩,
-    ⟨"direct", .tnil, .imp "canary.txt", osFile, .tnil⟩,
-    ⟨"direct", .tnil, path ["deprecated", "exec"], osFile, .tnil⟩,
-    ⟨"direct", .tnil, .pkg "std", osFile, .tnil⟩,
+    ⟨"direct", .tnil, evalValue osFile, osFile, .tnil, .lam "u" osFile⟩,
+    ⟨"direct", .tnil, .mac (.lam "a" osFile), osFile, .tnil, .lam "u" osFile⟩,
+    ⟨"direct", .tnil, .imp "lib.arrai", osFile, .tnil, .lam "u" osFile⟩,
+    ⟨"direct", .tnil, .imp "lib.arrai", .lam "u" osFile, .tnil, .lam "u" osFile⟩,
+    ⟨"direct", .tnil, .app (.imp "lib.arrai") (.num 0), .lam "u" osFile, .tnil, .lam "u" osFile⟩,
+    ⟨"direct", .tnil, .imp "canary.txt", osFile, .tnil, .lam "u" osFile⟩,
+    ⟨"direct", .tnil, path ["deprecated", "exec"], osFile, .tnil, .lam "u" osFile⟩,
+    ⟨"direct", .tnil, .pkg "std", osFile, .tnil, .lam "u" osFile⟩,
+    -- the direct entry with a chain of imports: lib.arrai imports lib2.arrai, which tries to hand out //os.file
+    ⟨"direct", .tnil, .app (.imp "lib.arrai") (.num 0), .imp "lib2.arrai", .tnil, .lam "u" osFile⟩,
+    ⟨"direct", .tnil, .dot (.imp "lib.arrai") "f", tuple [("f", .imp "lib2.arrai"), ("a", .imp "canary.txt")], .tnil,
+      path ["str", "upper"]⟩,
+    -- macros whose transform mentions names bound by enclosing lets (the parser's bind hook)
+    ⟨"direct", .tnil, .letE "v1" osFile (.mac (.lam "a1" (.var "v1"))), osFile, .tnil, osFile⟩,
+    ⟨"direct", .tnil, .letE "v1" osFile (.mac (.lam "a1" (.var "."))), osFile, .tnil, osFile⟩,
+    ⟨"direct", .tnil, .letE "v1" (path ["str", "upper"]) (.mac (.lam "a1" (.var "v1"))), osFile, .tnil, osFile⟩,
+    ⟨"direct", .tnil, .letE "v1" (path ["str", "upper"]) (.mac (.lam "a1" (.app (.var ".") (.str "ab")))), osFile,
+      .tnil, osFile⟩,
+    ⟨"direct", .tnil, tuple [("f", .letE "v1" (path ["eval", "value"]) (.num 1)), ("a", .mac (.lam "a1" (.var "v1")))],
+      osFile, .tnil, osFile⟩,
+    ⟨"direct", .tnil, .letE "v1" (.num 1) (.lam "x" (.mac (.lam "a1" (.var "x")))), osFile, .tnil, osFile⟩,
+    -- the witness of confinement_false_if_parse_scope_empty: let v1 = //os; {:… (\a1 (.).file) …:}
+    ev .tnil (.letE "v1" (.pkg "os") (.mac (.lam "a1" (.dot (.var ".") "file")))),
+    ev .tnil (.letE "v1" (.pkg "os") (.mac (.lam "a1" (.dot (.var "v1") "file")))),
+    ev .tnil (.letE "v1" (.pkg "os") (.mac (.lam "a1" (.dot (.var "v1") "exists")))),
+    ⟨"direct", .tnil, .letE "v1" (.pkg "os") (.mac (.lam "a1" (.dot (.var ".") "file"))), osFile, .tnil, osFile⟩,
+    ev .tnil (.letE "v1" osFile (.mac (.lam "a1" (.var "v1")))),
+    ev .tnil (.letE "v1" osFile (.mac (.lam "a1" (.lam "b" (.var "."))))),
+    ev (tuple [("stdlib", tuple [("grammar", .pkg "grammar"), ("os", tuple [("file", osFile)])])])
+      (.letE "v1" osFile (.mac (.lam "a1" (.lam "b" (.var "v1"))))),
+    ⟨"outside", tuple [("stdlib", tuple [("grammar", .pkg "grammar"), ("str", .pkg "str")])],
+      .letE "v1" (path ["str", "upper"]) (.mac (.lam "a1" (.lam "b" (.app (.var "v1") (.str "ab"))))), osFile, .tnil,
+      osFile⟩,
     -- KF-dynvar-leak: (\@{x} //eval.evaluator(()).eval("@{x}('canary.txt')"))(//os.file)
-    ⟨"dyn", .tnil, .app (.var dynName) (.str "canary.txt"), osFile, osFile⟩,
-    ⟨"dyn", .tnil, .var dynName, osFile, osFile⟩,
-    ⟨"dyn", .tnil, .num 1, osFile, osFile⟩ ]
+    ⟨"dyn", .tnil, .app (.var dynName) (.str "canary.txt"), osFile, osFile, .lam "u" osFile⟩,
+    ⟨"dyn", .tnil, .var dynName, osFile, osFile, .lam "u" osFile⟩,
+    ⟨"dyn", .tnil, .num 1, osFile, osFile, .lam "u" osFile⟩ ]
   (progs.zipIdx.map fun (p, i) => (mkCase s!"C18-corpus-{i}" ("corpus/" ++ p.mode) p).1)
 
 def gen (seed n : Nat) (thorough : Bool) : List Case := Id.run do
